@@ -18,7 +18,7 @@ Definition M (A : Type) := stream -> res (A * stream).
 Definition ret {A} (a : A) : M A := fun s => Ok (a, s).
 Definition bindM {A B} (m : M A) (k : A -> M B) : M B :=
   fun s => match m s with Ok (a, s') => k a s' | Err c => Err c | Panic c => Panic c end.
-Notation "x <~ m ;; k" := (bindM m (fun x => k))
+Notation "'mdo' x <~ m ;; k" := (bindM m (fun x => k))
   (at level 200, x pattern, m at level 100, k at level 200, right associativity).
 (* error codes *)
 Definition err_out_of_stream : N := 99.   (* stream/fuel exhausted: excluded by the theorems, never reached by the harness *)
@@ -182,21 +182,21 @@ Section Gen.
     match rest with
     | [] => ret []
     | x :: t =>
-        b <~ flipM (fdiv_pos (fmul_pos w (inject_Z (Z.of_N i))) flen) ;;
+        mdo b <~ flipM (fdiv_pos (fmul_pos w (inject_Z (Z.of_N i))) flen) ;;
         if b then rm_loop w flen i t
-        else (r <~ rm_loop w flen (i + 1) t ;; ret (x :: r))
+        else (mdo r <~ rm_loop w flen (i + 1) t ;; ret (x :: r))
     end.
   (* u_parrots.go:3159 *)
   Definition removeRandomCiphers (s : list N) (w : fw) : M (list N) :=
     match s with
     | [] => ret s
     | [_] => ret s                                   (* len(s) <= 1 *)
-    | x :: t => r <~ rm_loop w (inject_Z (Z.of_nat (length s))) 1 t ;; ret (x :: r)
+    | x :: t => mdo r <~ rm_loop w (inject_Z (Z.of_nat (length s))) 1 t ;; ret (x :: r)
     end.
 
   (* u_parrots.go:3180 *)
   Definition shuffledCiphers (tb : table) : M (list N) :=
-    pm <~ permM (length (t_suites tb)) ;;
+    mdo pm <~ permM (length (t_suites tb)) ;;
     let ciphers := map (fun '(row, tag) => {| sc_obsolete := negb (sr_tls12 row); sc_tag := tag; sc_suite := sr_id row |})
                        (combine (t_suites tb) pm) in
     ret (map sc_suite (isort ciphers)).
@@ -206,39 +206,39 @@ Section Gen.
                       (s salted : stream) : res spec :=
     let body : M spec :=
       (* 2973-2987 *)
-      withALPN <~ match v with
+      mdo withALPN <~ match v with
                   | VALPN => ret true
                   | VNoALPN => ret false
                   | _ => flipM (w_alpn w)
                   end ;;
       (* 2990 *)
-      shuffledSuites <~ shuffledCiphers tb ;;
+      mdo shuffledSuites <~ shuffledCiphers tb ;;
       (* 2995-3013 *)
-      is13 <~ flipM (w_tls13 w) ;;
+      mdo is13 <~ flipM (w_tls13 w) ;;
       '(vmin, vmax, shuffledSuites) <~
         (if is13 : bool then
-           k <~ intnM 2 ;;
-           tls13ciphers <~ shuffleM 0 (t_tls13 tb) ;;
+           mdo k <~ intnM 2 ;;
+           mdo tls13ciphers <~ shuffleM 0 (t_tls13 tb) ;;
            ret (nth (Z.to_nat k) [VersionTLS10; VersionTLS12] 0, VersionTLS13,
                 removeRC4Ciphers (tls13ciphers ++ shuffledSuites))
          else ret (VersionTLS10, VersionTLS12, shuffledSuites)) ;;
       (* 3015 *)
-      ciphers <~ removeRandomCiphers shuffledSuites (w_rmciphers w) ;;
+      mdo ciphers <~ removeRandomCiphers shuffledSuites (w_rmciphers w) ;;
       (* 3020-3048 *)
       let sig0 := [ECDSAWithP256AndSHA256; PKCS1WithSHA256; ECDSAWithP384AndSHA384; PKCS1WithSHA384; PKCS1WithSHA1; PKCS1WithSHA512] in
-      b1 <~ flipM (w_ecdsa_sha1 w) ;;
-      b2 <~ flipM (w_p521_sha512 w) ;;
-      b3 <~ flipM (w_pss256 w) ;;
-      sigAlgs <~ (if b3 || (vmax =? VersionTLS13) then
-                    b4 <~ flipM (w_pss384_512 w) ;;
+      mdo b1 <~ flipM (w_ecdsa_sha1 w) ;;
+      mdo b2 <~ flipM (w_p521_sha512 w) ;;
+      mdo b3 <~ flipM (w_pss256 w) ;;
+      mdo sigAlgs <~ (if b3 || (vmax =? VersionTLS13) then
+                    mdo b4 <~ flipM (w_pss384_512 w) ;;
                     ret (sig0 ++ opt b1 ECDSAWithSHA1 ++ opt b2 ECDSAWithP521AndSHA512 ++ [PSSWithSHA256]
                          ++ (if b4 : bool then [PSSWithSHA384; PSSWithSHA512] else []))
                   else ret (sig0 ++ opt b1 ECDSAWithSHA1 ++ opt b2 ECDSAWithP521AndSHA512)) ;;
-      sigAlgs <~ shuffleM 0 sigAlgs ;;
+      mdo sigAlgs <~ shuffleM 0 sigAlgs ;;
       (* 3055-3067 *)
-      c1 <~ flipM (w_x25519 w) ;;
-      c2 <~ flipM (w_x25519 w) ;;
-      c3 <~ flipM (w_p521 w) ;;
+      mdo c1 <~ flipM (w_x25519 w) ;;
+      mdo c2 <~ flipM (w_x25519 w) ;;
+      mdo c3 <~ flipM (w_p521 w) ;;
       let curveIDs := opt (c1 && (vmax =? VersionTLS13)) X25519MLKEM768 ++ opt (c2 || (vmax =? VersionTLS13)) X25519
                       ++ [CurveP256; CurveP384] ++ opt c3 CurveP521 in
       (* 3072-3087 *)
@@ -246,23 +246,23 @@ Section Gen.
       let protos := match nextProtos with [] => [proto_h2; proto_http11] | _ => nextProtos end in
       let exts := exts ++ opt withALPN (EALPN protos) in
       (* 3089-3105 *)
-      e1 <~ flipM (w_padding w) ;;
+      mdo e1 <~ flipM (w_padding w) ;;
       let exts := exts ++ opt (e1 || (vmax =? VersionTLS13)) EPadding in
-      e2 <~ flipM (w_status w) ;;
+      mdo e2 <~ flipM (w_status w) ;;
       let exts := exts ++ opt e2 EStatus in
-      e3 <~ flipM (w_sct w) ;;
+      mdo e3 <~ flipM (w_sct w) ;;
       let exts := exts ++ opt e3 ESCT in
-      e4 <~ flipM (w_reneg w) ;;
+      mdo e4 <~ flipM (w_reneg w) ;;
       let exts := exts ++ opt e4 (EReneg RenegotiateOnceAsClient) in
-      e5 <~ flipM (w_ems w) ;;
+      mdo e5 <~ flipM (w_ems w) ;;
       let exts := exts ++ opt e5 EEMS in
       (* 3106-3151 *)
-      exts <~ (if vmax =? VersionTLS13 then
-                 k1 <~ flipM (w_ks_p256 w) ;;
-                 ks <~ (if k1 : bool then ret [CurveP256]
+      mdo exts <~ (if vmax =? VersionTLS13 then
+                 mdo k1 <~ flipM (w_ks_p256 w) ;;
+                 mdo ks <~ (if k1 : bool then ret [CurveP256]
                         else
-                          k2 <~ flipM (w_ks_random w) ;;
-                          k3 <~ flipM (w_ks_random w) ;;
+                          mdo k2 <~ flipM (w_ks_random w) ;;
+                          mdo k3 <~ flipM (w_ks_random w) ;;
                           ret (opt k3 X25519MLKEM768 ++ [X25519] ++ opt k2 CurveP256)) ;;
                  let exts := exts ++ [EKeyShare ks; EPSKModes [pskModeDHE]; ESupportedVersions (makeSupportedVersions vmin vmax)] in
                  (* 3131-3147: a second PRNG on the salted seed, one draw *)
@@ -275,7 +275,7 @@ Section Gen.
                  else ret exts
                else ret exts) ;;
       (* 3152 *)
-      exts <~ shuffleM ESessionTicket exts ;;
+      mdo exts <~ shuffleM ESessionTicket exts ;;
       ret {| sp_min := vmin; sp_max := vmax; sp_ciphers := ciphers; sp_exts := exts |} in
     match v with
     | VOther => Err err_not_randomized        (* 2985 *)
